@@ -4,9 +4,13 @@ regenerated on every run into lean/Cjet/Generated/Deflate.lean.
   compression.c  reassembly buffer: `length * 3 + 4`, `memory - 4`, `avail_in <= length + 4`, `* 2` growth,
                  whether the growth is an `if` (once per fragment, F23) or a `while` (until it fits);
                  whether the frame functions refuse a final fragment without a buffer (F36);
-                 inflate output `20 * length` and its doubling; deflate output `length * 2`;
-                 the four tail bytes written behind the message and the four compared after deflate.
-  websocket.c    `response_max_length = 128 + 1`, `parameter[5]`, the extension name, the four parameter
+                 inflate output `20 * length` and its doubling; the four tail bytes written behind the message and
+                 the four compared after deflate; websocket_compress_bounded(): output size from `dest_size`, whether
+                 an incomplete flush / a short output / a wrong tail are answered -1 (`compressStrict`, F37);
+                 websocket_compress(): the `length * 2` wrapper; websocket_compress_bound(): deflateBound + 6 + 1.
+  websocket.c    send_frame(): buffer of websocket_compress_bound() bytes, malloc and result checked (`sendChecked`, F37);
+                 the offer scan bounded by `length` (F38; raises when the bounds are gone);
+                 `response_max_length = 128 + 1`, `parameter[5]`, the extension name, the four parameter
                  names, the single-digit/two-digit window-bits bounds of the offer parser, the per-level
                  defaults of websocket_init().
 The theorems of Cjet.Props.C19 are stated over these names; a pattern that no longer matches raises (broken tie)."""
@@ -25,7 +29,7 @@ def _one(pat, txt, what, flags=re.S):
 
 def _func(txt, name):
     """Body of a C function (from its header to the first line that is a lone closing brace)."""
-    m = re.search(r"^[^\n;{}()]*\b%s\s*\((?:[^;{}]*?)\)\s*\{\n(.*?)\n\}" % re.escape(name), txt, re.S | re.M)
+    m = re.search(r"^[^\n;{}()/]*\b%s\s*\((?:[^;{}/]*?)\)\s*\{\n(.*?)\n\}" % re.escape(name), txt, re.S | re.M)
     if not m:
         raise ValueError("ext_deflate: function %s not found" % name)
     return m.group(1)
@@ -80,18 +84,74 @@ def lean(repo):
     _one(r"\}\s*while\s*\(\s*strm->avail_out\s*==\s*0\s*\)\s*;", pd, "loop condition")
     _one(r"\*\w+\s*=\s*%s\s*-\s*strm->avail_out\s*;" % so, pd, "have")
 
-    # ---------------------------------------------------------------- websocket_compress()
-    wc = _func(comp, "websocket_compress")
-    compf = int(_one(r"strm->avail_out\s*=\s*length\s*\*\s*(\d+)\s*;", wc, "deflate output factor").group(1))
-    hv = _one(r"\b(\w+)\s*=\s*length\s*\*\s*%d\s*-\s*strm->avail_out\s*;" % compf, wc, "have").group(1)
+    # ---------------------------------------------------------------- websocket_compress_bounded() / _bound() / send_frame()
+    # F37: before the repair websocket_compress() itself offered zlib `length * 2` bytes and checked nothing.
+    try:
+        wc = _func(comp, "websocket_compress_bounded")
+    except ValueError:
+        raise ValueError("ext_deflate: websocket_compress_bounded() is gone from compression.c (repair of F37 removed?)")
+    osz = _one(r"strm->avail_out\s*=\s*(\w+)\s*;", wc, "deflate output size").group(1)
+    if osz != "dest_size":
+        _one(r"\b%s\s*=[^;]*\bdest_size\b[^;]*;" % osz, wc, "output size derived from dest_size")
+    hv = _one(r"\b(\w+)\s*=\s*%s\s*-\s*strm->avail_out\s*;" % osz, wc, "have").group(1)
+    _one(r"if\s*\(\s*ret\s*<\s*Z_OK\s*\)\s*\{.*?return\s+-1\s*;", wc, "deflate error -> -1")
     chk = []
     for i in range(4, 0, -1):
         chk.append(int(_one(r"dest\[%s\s*-\s*%d\]\s*!=\s*(0x[0-9a-fA-F]+|\d+)" % (hv, i), wc, "tail check %d" % i).group(1), 0))
     if chk != tail:
         raise ValueError("ext_deflate: tail appended %r differs from tail checked %r" % (tail, chk))
     strip = int(_one(r"\b%s\s*-=\s*(\d+)\s*;" % hv, wc, "tail strip length").group(1))
+    first_read = re.search(r"dest\[%s\s*-" % hv, wc).start()
+    pre = wc[:first_read]
+    # strict = an incomplete flush (avail_out == 0), fewer than `strip` bytes and a wrong tail are all answered -1,
+    # and the first two before dest[have - k] is read
+    full_chk = re.search(r"if\s*\([^{;]*strm->avail_out\s*==\s*0[^{;]*\)\s*\{[^}]*return\s+-1\s*;", pre, re.S)
+    short_chk = re.search(r"if\s*\([^{;]*\b%s\s*<\s*%d\b[^{;]*\)\s*\{[^}]*return\s+-1\s*;" % (hv, strip), pre, re.S)
+    tail_chk = re.search(r"if\s*\([^{;]*dest\[%s\s*-\s*1\][^{;]*\)\s*\{[^}]*return\s+-1\s*;" % hv, wc, re.S)
+    lvl0_chk = re.search(r"compression_level\s*==\s*0\s*\)\s*\{\s*if\s*\(\s*dest_size\s*<\s*length\s*\)\s*\{[^}]*return\s+-1\s*;[^}]*\}\s*memcpy\(dest,\s*src,\s*length\)",
+                         wc, re.S)
+    strict = bool(full_chk and short_chk and tail_chk and lvl0_chk)
+    # the wrapper keeps the `length * 2` contract of the tests
+    ww = _func(comp, "websocket_compress")
+    compf = int(_one(r"return\s+websocket_compress_bounded\(\s*s\s*,\s*dest\s*,\s*length\s*\*\s*(\d+)\s*,\s*src\s*,\s*length\s*\)\s*;", ww,
+                     "websocket_compress wrapper").group(1))
+    wb = _func(comp, "websocket_compress_bound")
+    _one(r"compression_level\s*==\s*0\s*\)\s*\{?\s*return\s+length\s*;", wb, "bound at level 0")
+    m = _one(r"return\s+deflateBound\(\s*\*\(s->extension_compression\.strm_comp\)\s*,\s*length\s*\)\s*\+\s*(\w+)\s*\+\s*(\w+)\s*;", wb,
+             "websocket_compress_bound = deflateBound + marker + spare")
+
+    def _num(tok):
+        if tok.isdigit():
+            return int(tok)
+        return int(_one(r"#define\s+%s\s+(\d+)" % re.escape(tok), comp, "value of " + tok).group(1))
+    marker, spare = _num(m.group(1)), _num(m.group(2))
     send = _func(ws, "send_frame")
-    sendf = int(_one(r"\w+\s*=\s*(?:cjet_)?malloc\(\s*length\s*\*\s*(\d+)\s*\)\s*;", send, "send_frame buffer").group(1))
+    sm_ = re.search(r"(\w+)\s*=\s*websocket_compress_bound\(\s*s\s*,\s*length\s*\)\s*;\s*(\w+)\s*=\s*(?:cjet_)?malloc\(\s*\1\s*\)\s*;", send)
+    send_ok = False
+    if sm_:
+        szv, bufv = sm_.group(1), sm_.group(2)
+        null_chk = re.search(r"if\s*\([^{;]*\b%s\s*==\s*NULL[^{;]*\)\s*\{[^}]*return\s+-1\s*;" % bufv, send, re.S)
+        call = re.search(r"(\w+)\s*=\s*websocket_compress_bounded\(\s*s\s*,\s*%s\s*,\s*%s\s*,\s*payload\s*,\s*length\s*\)\s*;" % (bufv, szv), send)
+        neg = call and re.search(r"if\s*\([^{;]*\b%s\s*<\s*0[^{;]*\)\s*\{[^}]*free\(%s\)\s*;[^}]*return\s+-1\s*;" % (call.group(1), bufv),
+                                 send, re.S)
+        send_ok = bool(null_chk and call and neg)
+    elif not re.search(r"websocket_compress(?:_bounded)?\(", send):
+        raise ValueError("ext_deflate: send_frame no longer calls the compressor")
+
+    # ---------------------------------------------------------------- bounds of the offer scan (F38)
+    fre0 = _func(ws, "fill_requested_extension")
+    _one(r"while\s*\(\s*\(\s*i\s*<\s*length\s*\)\s*&&\s*isspace\(\*\(start\s*\+\s*i\)\)\s*\)\s*i\+\+\s*;", fre0,
+         "blank skipping bounded by length (F38)")
+    for part, what in ((fre0.split('parameter_name = "server_max_window_bits"')[0], "client"),
+                       (fre0.split('parameter_name = "server_max_window_bits"')[1].split('parameter_name = "client_no_context_takeover"')[0], "server")):
+        _one(r"if\s*\(parameter_length\[i\]\s*==\s*name_length\s*\+\s*2\)\s*\{", part, what + " one digit value")
+        _one(r"\}\s*else\s+if\s*\(parameter_length\[i\]\s*==\s*name_length\s*\+\s*3\)\s*\{.*?\}\s*else\s*\{\s*return\s*;", part,
+             what + " two digit value only for name_length + 3 (F38)")
+        if what == "client":
+            _one(r"if\s*\(parameter_length\[i\]\s*>\s*name_length\)\s*\{", part, "client value only behind the name")
+        else:
+            _one(r"if\s*\(parameter_length\[i\]\s*<=\s*name_length\)\s*return\s*;.*?\*value_start\s*!=\s*'='", part,
+                 "server value required before it is read (F38)")
 
     # ---------------------------------------------------------------- negotiation
     fre = _func(ws, "fill_requested_extension")
@@ -153,10 +213,17 @@ def lean(repo):
          "/-- private_decompress(): the four bytes appended behind the message; `size_out = inflateOutFactor * length`. -/",
          "def tail : Cjet.Bytes := %s" % ("[" + ", ".join(str(t) for t in tail) + "]"),
          "def inflateOutFactor : Nat := %d" % outf,
-         "/-- websocket_compress(): `avail_out = length * deflateOutFactor`; `tailStrip` bytes removed; send_frame allocates `length * sendBufFactor`. -/",
+         "/-- websocket_compress(): the wrapper offers `length * deflateOutFactor` bytes; `tailStrip` bytes are removed. -/",
          "def deflateOutFactor : Nat := %d" % compf,
          "def tailStrip : Nat := %d" % strip,
-         "def sendBufFactor : Nat := %d" % sendf,
+         "/-- websocket_compress_bound(): `deflateBound(length) + flushMarkerMax + flushSpare`. -/",
+         "def flushMarkerMax : Nat := %d" % marker,
+         "def flushSpare : Nat := %d" % spare,
+         "/-- `true` when websocket_compress_bounded() answers -1 for an incomplete flush (`avail_out == 0`), for fewer than",
+         "    `tailStrip` bytes (before reading `dest[have - k]`), for a wrong tail and for a too small buffer at level 0 (F37). -/",
+         "def compressStrict : Bool := %s" % ("true" if strict else "false"),
+         "/-- `true` when send_frame() allocates websocket_compress_bound() bytes, checks malloc and returns -1 for a negative result (F37). -/",
+         "def sendChecked : Bool := %s" % ("true" if send_ok else "false"),
          "/-- fill_requested_extension(): size of the response buffer, number of parameter slots, initial lengths. -/",
          "def responseMax : Nat := %d" % resp_max,
          "def maxParams : Nat := %d" % maxpar,
